@@ -119,7 +119,7 @@ def run(ctx):
         t = ev.run_fn('io_loop::channel_slots::ChannelSlots::iter', [('var', 'self', -1)])
         r.eq('iter:whole-table', S.show(t), 'std::collections::HashMap::iter(self.slots)', ctx.site('io_loop::channel_slots::ChannelSlots::iter'))
         # channel 0's sources are registered in thread_main, never deregistered
-        dereg = [(ctx.owner(x[0]), H.term(x[3]['args'][0])) for x in panics.registrations(ctx) if x[1] == 'deregister']
+        dereg = [(ctx.owner(x[0]), x[4]) for x in panics.registrations(ctx) if x[1] == 'deregister']
         r.eq('deregister-sites', sorted(dereg), [('io_loop::Inner::allocate_channel', 'slot.rx'), ('io_loop::Inner::deregister_nonzero_channels', 'slot.rx')], None,
              why="channel 0's request sources must stay polled while throttled (close, open_channel)")
 
